@@ -22,7 +22,7 @@ pub static DEF: PropertyDef = PropertyDef {
     exhaustive_note: "every function of the program x every distinct boundary of each sampled history",
     generate,
     execute,
-    must_hit: &["fault.host_eval.fired", "fault.host_eval.with_pending_choices", "fault.host_eval.with_pending_text", "fault.host_eval.text_function", "fault.host_eval.inside_forked_thread", "fault.host_eval.inside_tunnel"],
+    must_hit: &["fault.host_eval.fired", "fault.host_eval.with_pending_choices", "fault.host_eval.with_pending_text", "fault.host_eval.text_function", "fault.host_eval.inside_forked_thread", "fault.host_eval.inside_tunnel", "fault.host_eval.fallback_choice_pending_mid_text"],
     timeout_s: 30,
     hang_class: None,
     sub_builds: &[],
@@ -142,7 +142,7 @@ fn execute(case: &Case) -> CaseResult {
         })
         .collect();
     // call-stack shape at every boundary (threads alive, inside a tunnel), from the save text
-    let mut shapes: std::collections::BTreeMap<usize, (bool, bool)> = std::collections::BTreeMap::new();
+    let mut shapes: std::collections::BTreeMap<usize, (bool, bool, bool)> = std::collections::BTreeMap::new();
     if let Ok(mut probe) = Host::new(&case.program, &case.host) {
         for p in 0..=r.ops.len() {
             if let Ok(s) = probe.save_text() {
@@ -150,7 +150,10 @@ fn execute(case: &Case) -> CaseResult {
                 let flow = j["currentFlowName"].as_str().unwrap_or("DEFAULT_FLOW").to_string();
                 let threads = j["flows"][&flow]["callstack"]["threads"].as_array().cloned().unwrap_or_default();
                 let in_tunnel = threads.iter().any(|t| t["callstack"].as_array().map(|a| a.iter().any(|e| e["type"] == 1)).unwrap_or(false));
-                shapes.insert(p, (threads.len() > 1, in_tunnel));
+                // choices in the save that the host is not shown: pending fallback choices
+                let saved_choices = j["flows"][&flow]["currentChoices"].as_array().map(|a| a.len()).unwrap_or(0);
+                let hidden = saved_choices > probe.choices().len();
+                shapes.insert(p, (threads.len() > 1, in_tunnel, hidden && probe.can_continue()));
             }
             if p < r.ops.len() {
                 probe.apply(&r.ops[p]);
@@ -203,6 +206,9 @@ fn execute(case: &Case) -> CaseResult {
                 }
                 if shapes.get(&p).map(|s| s.1).unwrap_or(false) {
                     res.stats.inc("fault.host_eval.inside_tunnel");
+                }
+                if shapes.get(&p).map(|s| s.2).unwrap_or(false) {
+                    res.stats.inc("fault.host_eval.fallback_choice_pending_mid_text");
                 }
                 if out.compared > 0 {
                     res.nontrivial = true;
